@@ -192,3 +192,15 @@ def c13_symbolic_bounds_rounded(v):
         return False
     ok, nd, nr = _c13_outside_explained(r)
     return ok and nr >= 1
+
+
+@predicate
+def c12_product_vs_zero(v):
+    r = v['record']
+    return r.get('clause', '').startswith('same:') and r.get('hostile') == 'zero_rhs' and r.get('single_case') is True
+
+
+@predicate
+def c12_contradictory_strict_pair(v):
+    r = v['record']
+    return r.get('clause', '').startswith('same:') and r.get('hostile') == 'contradiction' and r.get('merged_to_not_equal') is True
